@@ -342,7 +342,37 @@ def node_kind(n):
     return "Other"
 
 
-def nodes_of(src, sp=(1, 1)):
+def dedent_by(src, margin):
+    """what parsing sees of an indented block: `margin` characters removed from every non-blank line,
+    whitespace-only lines emptied (own implementation, not textwrap.dedent)"""
+    return "\n".join(l[margin:] if l.strip(" \t") else "" for l in src.split("\n"))
+
+
+def indent_by(src, prefix):
+    return "\n".join(prefix + l if l else l for l in src.split("\n"))
+
+
+def nodes_of(src, sp=(1, 1), margin=0):
+    if margin:
+        return nodes_of_indented(src, sp, margin)
+    return nodes_of_plain(src, sp)
+
+
+def nodes_of_indented(src, sp, margin):
+    """node oracle for an indented block: positions of the dedented text shifted back by the margin; a
+    top-level statement that is the first thing on its line starts at the line's beginning (its piece
+    carries the indentation)"""
+    tree, nodes = nodes_of_plain(dedent_by(src, margin), sp)
+    l0, c0 = sp
+    for n in nodes:
+        first_col = c0 if n["start"][0] == l0 else 1
+        if n["start"][1] != first_col:
+            n["start"][1] += margin
+        n["end"][1] += margin
+    return tree, nodes
+
+
+def nodes_of_plain(src, sp=(1, 1)):
     """Top-level nodes of `src` placed at start position sp: list of dicts
        start=[l,c] (character column, 1-based, "@" of the first decorator), end=[l,c], last=absolute
        last line, kind, raw=[lineno, col_offset] (CPython's own numbers, to match nodes up)."""
